@@ -183,6 +183,8 @@ impl BufferManager {
         // callers can never push the total above the hard limit (and `current + size`
         // cannot overflow).
         if !self.try_reserve(size) {
+            #[cfg(grafeo_verif)]
+            crate::verif::yield_point("buffer.try_allocate.after_first_reserve");
             // Try eviction first
             self.run_eviction_cycle(true);
 
@@ -191,6 +193,8 @@ impl BufferManager {
                 return None;
             }
         }
+        #[cfg(grafeo_verif)]
+        crate::verif::yield_point("buffer.try_allocate.after_reserve");
 
         self.region_allocated[region.index()].fetch_add(size, Ordering::Relaxed);
 
@@ -367,6 +371,8 @@ impl BufferManager {
 impl GrantReleaser for BufferManager {
     fn release(&self, size: usize, region: MemoryRegion) {
         self.allocated.fetch_sub(size, Ordering::Relaxed);
+        #[cfg(grafeo_verif)]
+        crate::verif::yield_point("buffer.release.after_allocated");
         self.region_allocated[region.index()].fetch_sub(size, Ordering::Relaxed);
     }
 
@@ -374,6 +380,8 @@ impl GrantReleaser for BufferManager {
         let current = self.allocated.load(Ordering::Relaxed);
 
         if current + size > self.hard_limit {
+            #[cfg(grafeo_verif)]
+            crate::verif::yield_point("buffer.try_allocate_raw.after_first_load");
             // Try eviction
             self.run_eviction_cycle(true);
 
@@ -382,8 +390,12 @@ impl GrantReleaser for BufferManager {
                 return false;
             }
         }
+        #[cfg(grafeo_verif)]
+        crate::verif::yield_point("buffer.try_allocate_raw.after_check");
 
         self.allocated.fetch_add(size, Ordering::Relaxed);
+        #[cfg(grafeo_verif)]
+        crate::verif::yield_point("buffer.try_allocate_raw.after_add");
         self.region_allocated[region.index()].fetch_add(size, Ordering::Relaxed);
         true
     }
